@@ -11,7 +11,7 @@ CLAIMED = {
         "text": "Lean 4 theorems: every modelled editing call of CMap2 (link/unlink/sew/unsew 1-2, force_ forms, add/insert/remove "
                 "free dart) preserves the well-formedness predicate WF 3 under the property's argument guard, lifted to every finite "
                 "history by induction; the hand-written model is tied to /repo on every run by an exhaustive small-scope + random "
-                "differential run of the real CMap2 against the compiled model, and the WF predicate is also evaluated on the real map.",
+                "differential run of the real CMap2 against the compiled model, and the WF predicate is also evaluated on the real map. Props/C01b.lean: whatever the outcome of a transactional call (success, refusal, attribute failure) the state it leaves INSIDE the transaction is well formed, so a user transaction that swallows the refusal and commits publishes a well-formed map (C01_any_outcome_preserves_WF, C01_swallowed_abort_preserves_WF; stream `txi`).",
         "note": "Trusted: Lean kernel + {propext, Classical.choice, Quot.sound}; the model is hand-written (tie = differential run, "
                 "exhaustive for n<=3 darts quick / n<=4 thorough); fast-stm modelled sequentially here (concurrency is C07).",
         "design_ref": "DESIGN.md §7 C01",
@@ -73,11 +73,11 @@ CLAIMED = {
                 "Tie: polyhedral complexes (hexahedra, tetrahedra, prisms, pyramids; rings of tets/cubes closing around an edge), glued "
                 "faces families, histories and tx blocks with free-term attribute values on the real CMap3 vs the model; Python oracle "
                 "recomputes cells independently and checks placement, round trips and 'unsew succeeds on embedded meshes'.",
-        "note": "Trusted: Lean kernel + 3 standard axioms; hand-written model. Cell level (Props/C05Cells.lean, C05Cells2.lean): 1-sew/1-unsew on every "
-                "WF 4 map; 2-sew/2-unsew and 3-sew/3-unsew on closed faces (partitions = unions of the stated pairs, every computed id a "
-                "cell minimum, merged-into id = minimum of the united cell under the proviso). NOT proved: open-face arms of 2-/3-(un)sews at "
-                "cell level, the implication from the cell-level to the id-level proviso, 'unsew always succeeds on an embedded mesh' (oracle "
-                "only). Defects found and repaired: three_unsew max/min (af9cf00), D4 (f79acf8), D13 (e8bc83e).",
+        "note": "Trusted: Lean kernel + 3 standard axioms; hand-written model. Cell level (C05Cells, C05Cells2): 1-sew/1-unsew on every WF 4 "
+                "map; 2- and 3-sew/unsew on closed faces; C05Succ: 1-/2-/3-unsew SUCCEED on an embedded mesh (built-in vertices; the result "
+                "is embedded again), open-face arms of 2-(un)sew, cell-level proviso => id-level proviso for 3-sew. NOT proved: success with "
+                "user storages whose split can fail, open faces for 3-(un)sew, behaviour outside the proviso (a cell in two merges of one "
+                "call). Defects found and repaired: three_unsew max/min (af9cf00), D4 (f79acf8), D13 (e8bc83e).",
         "design_ref": "DESIGN.md §7 C05, §13",
     },
     "C03": {
@@ -88,7 +88,7 @@ CLAIMED = {
                 "yield exactly the ids of in-use darts; linear policies agree on closed cells; transactional = plain. Tie: exhaustive "
                 "WF 2-maps n<=4 x all darts x 14 policies x all id/iterator calls on the real CMap2 vs the model, plus an independent "
                 "Python closure oracle.",
-        "note": "Trusted: Lean kernel + 3 standard axioms; hand-written model. 3-D (Props/C03b.lean, 50 theorems): C03_orbit3_spec for every policy and "
+        "note": "Trusted: Lean kernel + 3 standard axioms; hand-written model. 3-D (Props/C03b.lean): C03_orbit3_spec for every policy and "
                 "Custom slice; vertex/edge/volume ids = cell minima and iterators on EVERY WF 4 map (after repair of D13); face ids under "
                 "FaceScope = Mirror + 'a dart is 3-free iff its successor is' — weaker than the property's 'glued faces closed and mirrored' "
                 "(closedness not needed; both conditions necessary, counterexamples on the real code in the file); linear policies on closed "
@@ -128,7 +128,7 @@ CLAIMED = {
     "C10": {
         "text": "Lean 4 theorems over the loader model (mirroring build_2d_from_cmap_file after the repair of D5, commit 7170072): for EVERY "
                 "token text the loader returns an error or a map m with WF 3 m that agrees with the text (C10_load_wf_or_error), never a "
-                "panic; under the explicit validator validFile it succeeds; the nine pre-repair failure classes (out-of-range image, "
+                "panic; under the explicit validator validFile it succeeds; the pre-repair failure classes (seven defect classes D5a-g, nine witnesses) (out-of-range image, "
                 "non-inverse b0/b1, asymmetric b2, ignored null column, linked/repeated unused id, id >= n, vertex on null/removed dart) "
                 "are rejected with an error. Tie: mutation streams and random texts on the real loader vs the model; oracle on the real "
                 "result (error, or WF map agreeing with the text).",
@@ -137,7 +137,7 @@ CLAIMED = {
                 "character stream (CRLF, tabs, Unicode blanks and look-alikes, signs, overflow, non-digits, broken headers) in the tie. The "
                 "seven defect classes D5a-g found here were repaired in /repo by one fix: commit. Outside the quantifier: non-UTF-8 files "
                 "(read_to_string panics, compared as panic), memory exhaustion on a huge META count.",
-        "design_ref": "DESIGN.md §7 C10, §13.3",
+        "design_ref": "DESIGN.md §7 C10, §13.4",
     },
     "C12": {
         "text": "Lean 4 theorems for ALL nx, ny(, nz) >= 1 over the beta tables REGENERATED from grid.rs on every run (tools/gen_lean.py): WF of "
@@ -146,11 +146,12 @@ CLAIMED = {
                 "faces of area lx*ly (lx*ly/2); hex cells and b3 gluing; descriptor parsing errors exactly on missing/non-positive "
                 "parameters and agreement of the three descriptor forms; zero count (after the fix: commit 9dd602d). Tie: exhaustive size "
                 "boxes on the real builders vs the model (full snapshots) + independent Python oracle.",
-        "note": "Trusted: Lean kernel + 3 standard axioms; translator gen_lean.py (regex-level, fails loudly); hand-written builder loops. "
-                "Props/C12b.lean: 3-D vertices <-> lattice points with exact coordinates for all sizes, volumes, vertex/edge/face counts of "
-                "the 2-D grids and vertex/volume counts in 3-D, build() total; the third descriptor form: computed count = ceil(L/l) or one "
-                "less, exact iff the rounded quotient exceeds ceil(L/l)-1 (any monotone rounding fixing the integers). NOT proved: that "
-                "IEEE division is such a rounding; 3-D edge/face counts; u32 wrap-around.",
+        "note": "Trusted: Lean kernel + 3 standard axioms; translator gen_lean.py (parses the grid arithmetic, fails loudly); hand-written "
+                "builder loops. C12b: 3-D lattice vertices, volumes, counts, build() total; C12c: the third descriptor form in binary64 — "
+                "count = ceil(rnd 53 (L/l)) is ceil(L/l) or one less, exact on exact multiples (C12_ceil_count_f64_multiple), one short on a "
+                "concrete pair of floats (reproduced on the real builder; outside the property: not an exact multiple). NOT proved: that "
+                "the hardware division is rnd 53 (validated by C19's flop stream), overflow/subnormal quotients, 3-D edge/face counts, "
+                "u32 wrap-around.",
         "design_ref": "DESIGN.md §7 C12, §3.4",
     },
     "C19": {
@@ -217,11 +218,12 @@ CLAIMED = {
                 "accepted (after repair of D7, commit 00af791). Tie: convex/star/reflex-at-every-index/random simple polygons (4-10 sides, "
                 "both orientations, isolated and embedded) on the real kernels vs the model + exact Python oracle (triangle count, "
                 "orientation, area sum, adjacency, untouched faces, WF). Props/C13c.lean: exact triangle structure after ear clipping (n-2 listed triangles, each a closed b1 3-cycle) under the decidable hypothesis that the ear is never found at the last index (necessary: the kernel's vector surgery drops the wrong dart there; holds on simple polygons by the two-ears theorem, not proved); C13_fan_test_iff: exactly what the star test accepts (nothing about the magnitude of the first examined side, with a decide witness of an accepted zero-area triangle).",
-        "note": "Trusted: Lean kernel + 3 standard axioms; hand-written kernel models. Props/C13b.lean: successful fan / fan_convex / earclip runs "
-                "preserve WF 3 (closed face, live distinct spare darts — necessary: on an open chain the final sew writes b1(0)); exact "
-                "structure after a fan (n-2 listed triangles, spare darts 2-linked pairwise, every side keeps its neighbour, frame); frame for "
-                "ear clipping. NOT proved: ear clipping succeeds on every simple polygon in general position (two-ears theorem), exact "
-                "triangle structure after ear clipping, coordinates of the surgery's triangles — evaluated by the oracle.",
+        "note": "Trusted: Lean kernel + 3 standard axioms; hand-written kernel models. C13b: WF through fan/fan_convex/earclip, exact structure "
+                "after a fan; C13c: exact triangle structure after ear clipping under EarsNotLast (decidable; holds on simple polygons by "
+                "the two-ears theorem), C13_fan_test_iff; C13d: for both fan kernels the triangles of the RESULT map carry the coordinates of "
+                "the vertex-list triangles, hence area conservation, orientation and untouched coordinates in the map (fresh spare darts). "
+                "NOT proved: ear clipping succeeds on every simple polygon in general position (two-ears theorem), the coordinate tie for "
+                "ear clipping, spare darts that already carry links or values — evaluated by the oracle.",
         "design_ref": "DESIGN.md §7 C13",
     },
     "C14": {
@@ -231,10 +233,10 @@ CLAIMED = {
                 "vertex id of the i-th new dart (after repair of D11) and lies strictly between the end points in order over Q. Tie: every "
                 "edge of every WF 2-map n<=3 (+k spare darts, k<=3, natural and permuted order), grids, invalid inputs, tx blocks on the "
                 "real kernels vs the model; oracle: chain of k+1 segments on both sides, positions, frame incl. all images of dart 0. Props/C14c.lean: every old dart keeps its vertex orbit, vertex id and coordinates (in every storage), in particular the two end points.",
-        "note": "Trusted: Lean kernel + 3 standard axioms; hand-written kernel model. Props/C14b.lean: exact b chain after insertion on both sides, "
-                "b2 pairing in reverse order, frame for every other image, new darts lie in pairwise distinct vertices {fh[t], sh[k-1-t]}, "
-                "position theorem with its side hypothesis discharged. NOT proved: that the vertex orbits of the two end points keep their "
-                "dart sets (oracle only).",
+        "note": "Trusted: Lean kernel + 3 standard axioms; hand-written kernel model. Props/C14b.lean: exact b chain after insertion on both "
+                "sides, b2 pairing in reverse order, frame for every other image, new darts in pairwise distinct vertices; Props/C14c.lean: "
+                "every old dart keeps its vertex orbit, id and coordinates (in particular the two end points). NOT proved: UndefinedEdge "
+                "as an exact iff.",
         "design_ref": "DESIGN.md §7 C14",
     },
     "C11": {
@@ -246,12 +248,13 @@ CLAIMED = {
                 "indices = positions of the C03 vertex ids. Tie: the real to_vtk_ascii/binary output is parsed back with vtkio and compared "
                 "with the model's piece; real imports through from_vtk_file (ascii and binary temp files) are compared with the model; "
                 "Python oracle compares meshes up to renumbering (faces as cyclic coordinate sequences, glued sides, boundary).",
-        "note": "Trusted: Lean kernel + 3 standard axioms; vtkio reader/writer outside the model. Props/C11b.lean: import of a conforming list "
-                "returns Ok (no panic) with WF map, one b1 cycle per cell, coordinates preserved through all sews; Props/C11c.lean: for "
-                "exportable maps (closed faces of >= 3 sides, defined vertices, no repeated directed side) the round trip is an isomorphism "
-                "for b1, b2 and coordinates when there is no crack (C11_roundTrip_faces/_adjacency/_bijection), and a crack IS sewn "
-                "(C11_crack_is_sewn = known finding C11-crack: the format carries no adjacency). NOT proved: floating point (everything "
-                "over Q), that kernel-produced meshes are exportable, maps outside Exportable.",
+        "note": "Trusted: Lean kernel + 3 standard axioms; vtkio's BINARY writer and its reader for both formats. C11b: conforming import is Ok, "
+                "WF, coordinates preserved; C11c: export/import isomorphism for exportable maps without crack; C11d: 2-D grids and split "
+                "grids of every size are exportable without crack, hence C11_grid_round_trip / C11_split_round_trip; C11e: the results of "
+                "fan and insert_vertex_on_edge keep closed faces >= 3 sides and their boundary (positional hypotheses explicit); C11f: "
+                "the ASCII writer modelled at token level (renderTokens), the real ASCII output tokenised and compared, a "
+                "specification-level reader gives back the piece. Known finding C11-crack. NOT proved: floating point (all over Q), the "
+                "positional hypotheses after kernels, ear clipping / k-vertex insertion / remeshing outputs, maps outside Exportable.",
         "design_ref": "DESIGN.md §7 C11",
     },
     "C15": {
@@ -263,15 +266,18 @@ CLAIMED = {
                 "equations; the anchor rule of is_collapsible is total and picks the stated target; anchor algebra; the cut vertex is the "
                 "exact midpoint and cuts conserve signed area (ring over Q); the midpoint is stored under the vertex id and both halves of "
                 "a cut boundary edge keep its anchor (after repair of D15c/D15b). The clauses the code does NOT satisfy are proved false by "
-                "decide witnesses and recorded as known findings (D9 swap averages corners; D15a,d,e,f collapse). Tie: every dart of "
+                "decide witnesses and recorded as known findings (D9, D15a,d,e; D15f by replay only). Tie: every dart of "
                 "1x1..3x3 split grids x swap/cut/collapse, plain/anchored/multi-surface/pre-refined meshes, adaptive histories, tx blocks "
                 "on the real kernels vs the model; independent oracle on exact Fractions (triangles, counts, areas, coordinates, flags, "
                 "anchors, orientation). Props/C15b.lean: b-level topology theorems on arbitrary WF maps for swap (twelve images, frame, triangles), outer and inner cut (spare darts placed as documented, pairings, frame), cells and face iterator after cut_outer_edge, midpoint at the vertex id in the FINAL map, and collapse_edge itself (interior edge, no anchors): WF unconditionally, exactly the six triangle darts flagged and free, neighbours re-glued, frame.",
-        "note": "Partial: the property is FALSE on the current tree in the recorded ways (known findings D9, D15a, D15d, D15e, D15f, "
-                "each with a structural matcher; D15b, D15c, D15g repaired). NOT proved (oracle only): local topology after swap/cut on arbitrary "
-                "surrounding maps, global V/E/F counts, orientation of the whole fan after a collapse, that a successful collapse never sews "
-                "a null dart. Trusted: Lean kernel + 3 standard axioms; translator gen_lean.py (anchors).",
-        "design_ref": "DESIGN.md §7 C15, §13.3",
+        "note": "Partial: the property is FALSE on the current tree in the recorded ways (known findings D9, D15a, D15d, D15e, D15f, each with a "
+                "structural matcher; D9, D15a,d,e also with decide witnesses in Lean, D15f by replay only; D15b, D15c, D15g repaired). "
+                "C15b: b-level topology of swap/cuts on arbitrary WF maps; C15c: V/E/F counts through the iterators for swap, cuts and the "
+                "interior midpoint collapse, inner-cut cells and final-map midpoint, C15_swap_cells and C15_swap_moves_corners (D9 "
+                "characterised), end-point collapse on interior edges. NOT proved (oracle only): vertex count of collapse (false on "
+                "D15f configurations), anchors kept or lawfully merged after cut/collapse, boundary configurations of collapse. Trusted: "
+                "Lean kernel + 3 standard axioms; translator gen_lean.py (anchors).",
+        "design_ref": "DESIGN.md §7 C15, §13.4",
     },
     "C16": {
         "text": "Lean 4 theorems for the discrete clauses: detect_orientation_issue returns the error iff some vertex starts two segments or "
@@ -282,10 +288,16 @@ CLAIMED = {
                 "exact oracle (Fractions on the exact f64 values, explicit tolerances) on the REAL grisubal over generated simple polygons "
                 "and nested polygon sets in general position, cell sizes, three clip modes, mis-oriented variants. Tie for the modelled "
                 "parts: orient/grid-sizing commands answered by both drivers. Props/C16Cross.lean: the intersection step for one segment (all three code paths, any grid, eps-general position) is modelled over Q and tied (new commands gcross/gchain; exact family compared as equal rationals): every reported crossing lies on the segment and on the named grid side, none is missed, strictly sorted, count = |di|+|dj| (the pre-allocated identifiers), one cell between consecutive crossings. Props/C16Clip.lean: clip_left/right on Boundary-tagged maps (HashSet order a parameter): exactly the darts of the faces reachable from a tagged dart are removed and unlinked, the result is WF, remaining boundary darts 2-free, order-independent; Props/C16Insert.lean: steps 2-3 (grouping per edge, ids, insertion): every written slot k gets its dart at res[k] for every HashMap order (after repair of D16c), distinct darts, composed with C14's insertion theorems for one edge; tied through the cfg(honeycomb_verif) hooks intersection_data / intersection_darts / clip (exact text equality on the exact family).",
-        "note": "Partial: only the discrete sub-algorithms are proved; the pipeline (intersections, edge bookkeeping with HashMap-ordered dart "
-                "numbering, epsilon bands, clip closure - pub(crate), not reachable from the public API) is validated on the implementation, "
-                "not modelled. Known findings D16a (a boundary loop inside one cell is silently dropped) and D16b (negatively oriented "
-                "face on a same-side dip crossed by another part of the boundary).",
+        "note": "Partial. Steps 1-5 of the pipeline and the clip are each MODELLED over exact rationals, PROVED (C16Cross, C16Insert, C16Grid, "
+                "C16Edges, C16EdgeInsert, C16Clip: crossings sound/complete/sorted/counted; ids per slot for every HashMap order; the "
+                "origin-shift loop terminates and leaves no vertex on a grid corner; edge data and edge insertion with Left/Right tags, "
+                "WF preserved; the hypotheses of the clip theorems are ESTABLISHED for pipeline outputs, C16_pipeline_clip_WF) and TIED step "
+                "by step through the cfg(honeycomb_verif) wrappers grisubal::verif::{intersection_data, intersection_darts, segments, "
+                "edge_data, insert_edges, clip_left, clip_right} (identical text on the exact family). NOT proved: one theorem chaining "
+                "steps 1-5 ('every crossing and retained PoI is a vertex' is the prose composition of six theorems), that each new edge "
+                "stays in one cell across segment joints, that step 5 never fails, f64 rounding, the end-to-end geometric clauses (areas, "
+                "tiling, coverage: exact oracle on the implementation). Known findings D16a (a boundary loop inside one cell is dropped) "
+                "and D16b (negatively oriented face on a same-side dip); D16c repaired (2e893a8).",
         "design_ref": "DESIGN.md §7 C16",
     },
     "C17": {
@@ -297,8 +309,10 @@ CLAIMED = {
                 "vertices, succeeds on closed boundaries and errs only when the walk leaves the boundary. Tie: classify on anchored grids, "
                 "every WF 2-map n<=3 x anchor patterns, real capture meshes re-loaded into both drivers, sew/unsew on anchored maps; the "
                 "capture phase itself (points of interest anchored to nodes, curves/surfaces) is evaluated by the oracle on the real code. Props/C17Surf.lean: after Ok, faces reachable from each other without crossing a curve-anchored edge carry the same Surface id and two faces with the same id are linked by a chain of edges anchored to it (regions separated by curves get different ids).",
-        "note": "Partial: classification proved, capture (geometry) validated by the oracle only; 'one surface id per connected set of faces' "
-                "not proved. Known finding D17a (loop inside one cell dropped, twin of D16a).",
+        "note": "Partial: classification (incl. surface ids per region, C17Surf), the origin-shift loop (C17_no_vertex_on_grid_line) and the "
+                "capture pipeline steps 1-5 (shared with C16, with the Node anchors written by the edge insertion) are modelled, proved "
+                "and tied through the hooks; the geometric part of capture (which points become nodes/curves) is evaluated by the "
+                "oracle only. Known finding D17a (loop inside one cell dropped, twin of D16a); D17b repaired (2e893a8).",
         "design_ref": "DESIGN.md §7 C17",
     },
 }
